@@ -161,6 +161,14 @@ impl RecordName {
         namespace: Option<&str>,
         tag_name: &str,
     ) -> Result<Self> {
+        // Attributes from extension namespaces can have the same name as standard
+        // attributes, but they must be never confused with them.
+        if let Some(namespace) = namespace {
+            return Ok(RecordName::Unknown {
+                namespace: namespace.to_owned(),
+                name: tag_name.to_owned(),
+            });
+        }
         Ok(match tag_name {
             "cartesianX" => RecordName::CartesianX,
             "cartesianY" => RecordName::CartesianY,
